@@ -205,6 +205,10 @@ def readLoad (cfg : Cfg) (guarded : Bool) (s : Sess) (db : Db) (cid : Nat) (a : 
         let nv := rowVal row a
         if o.dbvals a == some nv then (s, none)          -- db_set returns early; `_vals_[attr]` is then missing
         else if o.rbits a then (s, some .unrepeatable)
+        else if !o.wmask a && (o.dbvals a).isSome then
+          -- `assert old_val == old_dbval`: `_vals_` has no entry but `_dbvals_` has (left behind by an earlier `_db_set_`
+          -- that raised in the middle of its second loop); `_dbvals_[attr]` is already overwritten when the assert fires
+          (setC s cid { o with dbvals := upd o.dbvals a (some nv) }, some .other)
         else (setC s cid { o with dbvals := upd o.dbvals a (some nv),
                                   vals := if o.wmask a then o.vals else upd o.vals a (some nv) }, none)
     else
